@@ -255,6 +255,12 @@ func (c *compiler) compile(slice bigslice.Slice, part partitioner) (tasks []*Tas
 				Deps:   []TaskDep{{task, 0, false, ""}},
 				Pragma: task.Pragma,
 				Slices: task.Slices,
+				// These tasks exist to partition (and combine) the reused
+				// output for the consumer's shuffle.
+				NumPartition: part.NumPartition(),
+				Partitioner:  part.Partitioner(),
+				Combiner:     part.Combiner,
+				CombineKey:   part.CombineKey,
 			}
 		}
 		return
